@@ -155,6 +155,10 @@ Proof.
   intros c l0 ops Hf Hm. exact (c11_limit_custody c l0 ops Hf (env_run_msgs c ops _ Hm)).
 Qed.
 Print Assumptions c11_limit_custody_msgs.
+Example c11_limit_msgs_nonvacuous :
+  Forall is_msg [Deposit 0 1 2 5 0 1000000; Withdraw 0 1 2 5 0 2900000; Cancel 1 1 2 5; Withdraw 0 1 2 5 1 7] /\
+  ~ is_msg (AutoFill 2 1 5 1000000 [0] 0 true) /\ ~ is_msg (Cancel MOD 1 2 5).
+Proof. split; [repeat constructor; cbn; lia|]. split; cbn; unfold MOD; [tauto|lia]. Qed.
 
 (* the executable predicates that the runner evaluates on the implementation's observations are
    consequences of the two theorems above *)
